@@ -268,6 +268,8 @@ ExpectedKey(F, r) ==
     CASE r.root = "seed" -> B!Master(F, r.seed)
       [] r.root = "mnemonic" -> B!Stage(F, <<QSeed(r.words, r.pass)>>, B!Master(F, FactVal(F, QSeed(r.words, r.pass))))
       [] r.root = "pub" -> LET x == FromObs(F, r.parent) IN IF x.st = "ok" THEN B!Ok(B!Neuter(x.val)) ELSE x
+      \* a wallet made from a private account key: its top key is that very key of the wallet it was exported from
+      [] r.root = "acct" -> FromObs(F, r.parent)
       [] OTHER -> LET x == FromObs(F, r.parent) IN
                   IF x.st # "ok" THEN x
                   ELSE B!ApplyStep(F, x.val, B!ElemStep(x.val.priv, B!ParseElem(r.tok), {}))
@@ -300,7 +302,7 @@ Prefetch(r) ==
     LET st == IF r.root = "child" THEN B!ElemStep(r.parent.priv, B!ParseElem(r.tok), {}) ELSE B!ErrStep IN
     ObsQs(r.child)
     \o (IF r.wt # "segwit" THEN <<B!QSha256d(AddrPayload(r.child.addr))>> ELSE <<>>)
-    \o (IF r.root \in {"child", "pub"} THEN ObsQs(r.parent) ELSE <<>>)
+    \o (IF r.root \in {"child", "pub", "acct"} THEN ObsQs(r.parent) ELSE <<>>)
     \o (IF r.root = "seed" THEN <<B!QHmac(B!BitcoinSeed, r.seed)>> ELSE <<>>)
     \o (IF r.root = "mnemonic" THEN <<QSeed(r.words, r.pass)>> ELSE <<>>)
     \o (IF st.act = "err" THEN <<>>
